@@ -523,7 +523,16 @@ fn generate_texture_dummy_data(
         ),
     )))?;
 
-    let data = format.dummy_fill_color_bytes().repeat((width * height) as usize);
+    // (don't try to allocate gigabytes for a typo; the largest texture the header can describe
+    //  is far beyond anything a game loads)
+    const MAX_DUMMY_PIXELS: u64 = 1 << 26;
+    if width as u64 * height as u64 > MAX_DUMMY_PIXELS {
+        return Err(emitter.emit(error!(
+            message("image is unreasonably large ({width}x{height}) (for image '{entry_path}')"),
+            primary(has_data_span, "cannot generate dummy data this large"),
+        )));
+    }
+    let data = format.dummy_fill_color_bytes().repeat((width as u64 * height as u64) as usize);
     Ok(data.into())
 }
 
